@@ -26,6 +26,7 @@ TRUSTED_BASE = [
     "Spec/*.lean: hand-written reference semantics of std, validated against the real std on every run (spec vs oracle comparison), ultimately trusted",
     "correspondence check: hand-written model tied to /repo by differential execution (kharness + generated programs, rebuilt from /repo's working tree) against the compiled Lean driver that runs the same definitions the theorems are about",
     "rustc 1.95 / cargo; the Lean compiler for the driver executable",
+    "second tie (DESIGN.md section 11): translator/ (rs2lean: rustc -Zunpretty=expanded + syn) regenerates Lean definitions of the listed functions from /repo on every run; Rs/Prelude.lean's reading of Rust integer, slice-pattern and raw-parts semantics; the equivalence theorems Extracted.f = Model.f are kernel-checked",
 ]
 
 
@@ -92,45 +93,84 @@ def forbidden_hits():
 
 def read_obligations(pid):
     """lean/obligations/<pid>.txt: one fully qualified theorem name per line (# comments allowed);
-    a line `import <Module>` adds a module to import for the audit."""
-    p = os.path.join(LEAN, "obligations", pid + ".txt")
-    names, imports = [], []
-    for line in open(p):
-        line = line.split("#")[0].strip()
-        if not line:
-            continue
-        if line.startswith("import "):
-            imports.append(line[7:].strip())
-        else:
-            names.append(line)
-    return imports, names
+    a line `import <Module>` adds a module to import for the audit.
+    lean/obligations/<pid>.extracted.txt (optional, same format): the equivalence theorems
+    `regenerated definition = model definition` of DESIGN.md section 11."""
+    def rd(p):
+        names, imports = [], []
+        if os.path.exists(p):
+            for line in open(p):
+                line = line.split("#")[0].strip()
+                if not line:
+                    continue
+                if line.startswith("import "):
+                    imports.append(line[7:].strip())
+                else:
+                    names.append(line)
+        return imports, names
+    imports, names = rd(os.path.join(LEAN, "obligations", pid + ".txt"))
+    ximports, xnames = rd(os.path.join(LEAN, "obligations", pid + ".extracted.txt"))
+    return imports, names, ximports, xnames
 
 
-def proof_obligations(pid, tier):
-    imports, names = read_obligations(pid)
-    res = {"obligations": len(names), "discharged": 0, "failed": [], "axioms": {}, "names": names}
-    targets = list(imports) + ["kdriver"]
+GEN_DIR = os.path.join(LEAN, "KonstVerif", "Extracted", "Gen")
+GEN_MANIFEST = os.path.join(ROOT, "translator", "gen.sha256.json")
+
+
+def gen_digests():
+    d = {}
+    if os.path.isdir(GEN_DIR):
+        for fn in sorted(os.listdir(GEN_DIR)):
+            if fn.endswith(".lean"):
+                d[fn] = hashlib.sha256(open(os.path.join(GEN_DIR, fn), "rb").read()).hexdigest()
+    return d
+
+
+_REGEN = {}
+
+
+def regenerate_extracted():
+    """DESIGN.md section 11: expand /repo's crates with rustc, translate the target functions into
+    lean/KonstVerif/Extracted/Gen/*.lean, report translation failures and which files differ from the
+    committed ones (translator/gen.sha256.json)."""
+    if _REGEN:
+        return _REGEN
+    t0 = time.time()
     with build_lock():
-        t0 = time.time()
-        rc, out = run(["lake", "build"] + targets, cwd=LEAN, timeout=3600)
-        res["lake_build_s"] = round(time.time() - t0, 1)
-    res["checker_cmd"] = "cd lean && lake build " + " ".join(targets) + " && lake env lean <#print axioms audit>"
-    if rc != 0:
-        res["failed"] = [f"lake build failed: {out[-1500:]}"]
-        return res
-    audit = os.path.join(BUILD, f"audit_{pid}.lean")
+        rc, out = run([os.path.join(ROOT, "translator", "run.sh")], timeout=1800)
+    status = []
+    try:
+        status = json.load(open(os.path.join(GEN_DIR, "status.json")))
+    except Exception:
+        pass
+    try:
+        manifest = json.load(open(GEN_MANIFEST))
+    except Exception:
+        manifest = {}
+    cur = gen_digests()
+    changed = sorted(f for f in set(cur) | set(manifest) if cur.get(f) != manifest.get(f))
+    _REGEN.update({"rc": rc, "seconds": round(time.time() - t0, 1),
+                   "targets": len(status), "translated": sum(1 for s_ in status if s_.get("ok")),
+                   "failed_targets": [s_ for s_ in status if not s_.get("ok")],
+                   "changed_files": changed,
+                   "log": "" if rc == 0 else out[-1500:]})
+    return _REGEN
+
+
+def audit_axioms(pid, tag, imports, names, res):
+    audit = os.path.join(BUILD, f"audit_{pid}{tag}.lean")
     with open(audit, "w") as f:
         for m in imports:
             f.write(f"import {m}\n")
         for nme in names:
             f.write(f"#print axioms {nme}\n")
     rc, out = run(["lake", "env", "lean", audit], cwd=LEAN, timeout=1800)
-    # parse
     found = {}
     for m in re.finditer(r"'([^']+)' depends on axioms: \[([^\]]*)\]", out.replace("\n", " ")):
         found[m.group(1)] = {a.strip() for a in m.group(2).split(",") if a.strip()}
     for m in re.finditer(r"'([^']+)' does not depend on any axioms", out):
         found[m.group(1)] = set()
+    ok = 0
     for nme in names:
         if nme not in found:
             res["failed"].append(f"{nme}: theorem missing or audit failed")
@@ -140,19 +180,61 @@ def proof_obligations(pid, tier):
         if extra:
             res["failed"].append(f"{nme}: depends on disallowed axioms {sorted(extra)}")
         else:
-            res["discharged"] += 1
+            ok += 1
+    return ok
+
+
+def proof_obligations(pid, tier):
+    imports, names, ximports, xnames = read_obligations(pid)
+    res = {"obligations": len(names) + len(xnames), "discharged": 0, "failed": [], "axioms": {},
+           "names": names + xnames, "extracted": None, "extracted_broken": False}
+    targets = list(imports) + ["kdriver"]
+    with build_lock():
+        t0 = time.time()
+        rc, out = run(["lake", "build"] + targets, cwd=LEAN, timeout=3600)
+        res["lake_build_s"] = round(time.time() - t0, 1)
+    res["checker_cmd"] = "cd lean && lake build " + " ".join(targets) + " && lake env lean <#print axioms audit>"
+    if rc != 0:
+        res["failed"] = [f"lake build failed: {out[-1500:]}"]
+        return res
+    res["discharged"] += audit_axioms(pid, "", imports, names, res)
+    # the second tie (DESIGN.md section 11): regenerate the definitions from /repo's source, re-check the
+    # equivalence theorems `Extracted.f = Model.f` against the regenerated text
+    if xnames:
+        gen = regenerate_extracted()
+        res["extracted"] = {k: gen[k] for k in ("targets", "translated", "changed_files", "seconds")}
+        res["extracted"]["failed_targets"] = [f"{t_['rust']}: {t_.get('error', '')}"[:300] for t_ in gen["failed_targets"]]
+        res["extracted"]["equivalence_theorems"] = len(xnames)
+        with build_lock():
+            t0 = time.time()
+            rc, out = run(["lake", "build"] + list(ximports), cwd=LEAN, timeout=3600)
+            res["extracted"]["lake_build_s"] = round(time.time() - t0, 1)
+        res["checker_cmd"] += " ; translator/run.sh && lake build " + " ".join(ximports)
+        if rc != 0:
+            errs = [l for l in out.split("\n") if l.startswith("error:")][:6]
+            res["extracted_broken"] = True
+            res["failed"].append("extracted: the definitions regenerated from /repo's source no longer satisfy the "
+                                 "equivalence theorems (regenerated files that differ from the committed ones: "
+                                 + (", ".join(gen["changed_files"]) or "none") + "; untranslatable targets: "
+                                 + (", ".join(t_["rust"] for t_ in gen["failed_targets"]) or "none") + "): "
+                                 + " | ".join(e[:300] for e in errs))
+        else:
+            ok = audit_axioms(pid, "x", ximports, xnames, res)
+            res["discharged"] += ok
+            if ok != len(xnames):
+                res["extracted_broken"] = True
     hits = forbidden_hits()
     if hits:
         res["failed"].append("forbidden tokens: " + "; ".join(hits[:5]))
         res["discharged"] = 0
     if tier == "thorough" and not res["failed"]:
         t0 = time.time()
-        for m in imports:
+        for m in list(imports) + list(ximports):
             rc, out = run(["lake", "env", "leanchecker", m], cwd=LEAN, timeout=3600)
             if rc != 0:
                 res["failed"].append(f"leanchecker {m} failed: {out[-500:]}")
         res["leanchecker_s"] = round(time.time() - t0, 1)
-        res["checker_cmd"] += " && lake env leanchecker " + " ".join(imports)
+        res["checker_cmd"] += " && lake env leanchecker " + " ".join(list(imports) + list(ximports))
     return res
 
 
@@ -400,6 +482,11 @@ def main(argv):
             if changed and tier == "quick" and os.environ.get("VERIF_NO_ESCALATE") != "1":
                 gen_tier = "thorough"
                 log(f"[{pid}] anchored sources changed ({', '.join(changed[:4])}): exploring with the thorough generators")
+            if po.get("extracted_broken") and not replay:
+                gen_tier = "thorough"
+                log(f"[{pid}] an equivalence theorem about the regenerated definitions no longer checks: searching for a failing input with the thorough generators")
+            if po.get("extracted"):
+                extra["extracted"] = po["extracted"]
             extra["anchors_changed"] = changed
             extra["generator_tier"] = gen_tier
             rtier = gen_tier
